@@ -192,7 +192,20 @@ fn honest_faults(b: &mut Base, until: u64, allow_restart: bool, allow_forks: boo
                 add(&mut b.plan, back, Action::Connect { peer });
             }
             3 if allow_restart => add(&mut b.plan, at, Action::Restart),
-            4 => add(&mut b.plan, at, Action::ClockJump { ms: b.rng.range(1_000, 70_000) }),
+            4 => {
+                if b.rng.chance(1, 2) {
+                    add(&mut b.plan, at, Action::ClockJump { ms: b.rng.range(1_000, 70_000) });
+                } else {
+                    // the wall clock is stepped (NTP correction, operator): a little backwards or
+                    // up to two hours forwards
+                    let ms: i64 = if b.rng.chance(1, 2) {
+                        -(b.rng.range(500, 20_000) as i64)
+                    } else {
+                        *b.rng.pick(&[1_000i64, 30_000, 61_000, 600_000, 7_200_000])
+                    };
+                    add(&mut b.plan, at, Action::ClockSkew { ms });
+                }
+            }
             5 if allow_forks => {
                 // a shallow fork that becomes the heavier chain; everybody follows it
                 let back = b.rng.range(1, b.plan.knobs.last_n.min(6));
@@ -999,7 +1012,13 @@ fn gen_c11(seed: u64) -> Plan {
                 add(&mut b.plan, at, Action::Disconnect { peer });
                 add(&mut b.plan, at + b.rng.range(100, 30_000), Action::Connect { peer });
             }
-            3 => add(&mut b.plan, at, Action::ClockJump { ms: *b.rng.pick(&[7_900u64, 8_100, 52_000, 59_900, 60_100, 61_000]) }),
+            3 => {
+                if b.rng.chance(2, 3) {
+                    add(&mut b.plan, at, Action::ClockJump { ms: *b.rng.pick(&[7_900u64, 8_100, 52_000, 59_900, 60_100, 61_000]) });
+                } else {
+                    add(&mut b.plan, at, Action::ClockSkew { ms: *b.rng.pick(&[-20_000i64, -8_100, -1_000, 8_100, 59_900, 60_100, 3_600_000]) });
+                }
+            }
             4 | 5 => add(&mut b.plan, at, Action::Inject { peer, spec: InjectSpec { seed: b.rng.next_u64(), kind: 2 } }),
             6 => {
                 let number = b.rng.range(0, b.plan.initial_blocks);
